@@ -24,6 +24,12 @@ pub enum Beh {
     Wait(u64),
     /// an event stream of `n` messages sent 25 ms apart by another thread, then closed
     Events(u32),
+    /// the same with status 503 (a response that closes the connection)
+    EventsClosing(u32),
+    /// fetch the body (limit 1 000 000); the second call sends `k` events before it returns an event stream (the queue holds 50)
+    UploadThenEvents(u32),
+    /// fetch the body (limit 1 000 000); the second call keeps a clone of the request (an audit queue) and answers 200
+    UploadKeepClone,
 }
 
 struct Shared {
@@ -34,6 +40,12 @@ struct Shared {
 fn shared() -> &'static Mutex<Shared> {
     static S: OnceLock<Mutex<Shared>> = OnceLock::new();
     S.get_or_init(|| Mutex::new(Shared { behaviours: HashMap::new(), log: Vec::new() }))
+}
+
+/// Requests kept by `UploadKeepClone` handlers (dropped at the end of each case, after the cache directory has been looked at).
+fn kept_requests() -> &'static Mutex<Vec<Request>> {
+    static K: OnceLock<Mutex<Vec<Request>>> = OnceLock::new();
+    K.get_or_init(|| Mutex::new(Vec::new()))
 }
 
 /// Gate for the `busy` schedule: handlers of `/__gate` block here (occupying a thread of the blocking pool).
@@ -103,7 +115,19 @@ fn handler(req: Request) -> Response {
                 Response::text(200, format!("got-{path}-{}", req.body.len().unwrap_or(0)))
             }
         }
-        Beh::Events(n) => {
+        Beh::UploadThenEvents(k) => {
+            if req.body.is_pending() { return Response::get_body_and_reprocess(1_000_000); }
+            let (mut sender, r) = Response::event_stream();
+            for i in 1..=k { sender.send(servlin::Event::Message(format!("e{i}-{path}"))); }
+            r
+        }
+        Beh::UploadKeepClone => {
+            if req.body.is_pending() { return Response::get_body_and_reprocess(1_000_000); }
+            let len = req.body.len().unwrap_or(0);
+            kept_requests().lock().unwrap().push(req.clone());
+            Response::text(200, format!("got-{path}-{len}"))
+        }
+        Beh::Events(n) | Beh::EventsClosing(n) => {
             let (mut sender, r) = Response::event_stream();
             std::thread::spawn(move || {
                 for i in 1..=n {
@@ -111,7 +135,7 @@ fn handler(req: Request) -> Response {
                     sender.send(servlin::Event::Message(format!("e{i}-{path}")));
                 }
             });
-            r
+            if matches!(beh, Beh::EventsClosing(_)) { r.with_status(503) } else { r }
         }
     }
 }
@@ -210,6 +234,9 @@ pub fn request_bytes(spec: &str) -> (Vec<u8>, String, Beh) {
         "d" => Beh::Drop,
         // F<code>-<declared>-<actual|m>
         "E" => Beh::Events(beh[1..].parse().unwrap()),
+        "X" => Beh::EventsClosing(beh[1..].parse().unwrap()),
+        "S" => Beh::UploadThenEvents(beh[1..].parse().unwrap()),
+        "Q" => Beh::UploadKeepClone,
         "w" => Beh::Wait(beh[1..].parse().unwrap()),
         "F" => {
             let parts: Vec<&str> = beh[1..].split('-').collect();
@@ -478,6 +505,7 @@ pub fn case(ctx: &mut Ctx, tag: &str, small: &str, cache: &str, schedule: &str, 
             std::thread::sleep(Duration::from_millis(2));
             files_after = count_files(&srv.cache);
         }
+        kept_requests().lock().unwrap().clear();
         let mut log = shared().lock().unwrap().log.clone();
         if sched == "par3" {
             log.sort();
@@ -502,10 +530,10 @@ fn events_in_sequences(ctx: &mut Ctx, rng: &mut Rng) {
     let mut eidx = 50_000u64;
     for n in [1u32, 2, 3] {
         for sched in ["single", "frag", "mid"] {
-            for shape in 0..2 {
+            for shape in 0..3 {
                 eidx += 1;
                 if !ctx.mine(eidx) { continue; }
-                let reqs = if shape == 0 { format!("GET:/ev{eidx}:n::E{n};GET:/after{eidx}:n::n200") }
+                let reqs = if shape == 2 { format!("GET:/pre{eidx}:n::n200;GET:/ev{eidx}:n::X{n};GET:/after{eidx}:n::n200") } else if shape == 0 { format!("GET:/ev{eidx}:n::E{n};GET:/after{eidx}:n::n200") }
                     else { format!("GET:/pre{eidx}:n::n200;GET:/ev{eidx}:n::E{n};POST:/post{eidx}:k:{}:n201;GET:/ev2{eidx}:n::E1", body(rng, 30)) };
                 case(ctx, "c04", "100", "1", sched, &reqs);
             }
@@ -517,6 +545,13 @@ fn events_in_sequences(ctx: &mut Ctx, rng: &mut Rng) {
 pub fn run_c04e(ctx: &mut Ctx) {
     let mut rng = Rng::new(ctx.seed.wrapping_add(44));
     events_in_sequences(ctx, &mut rng);
+    // long keep-alive sequences: 130 and 260 requests on one connection, pipelined and one at a time
+    for (k, (count, sched)) in [(130usize, "single"), (130, "pingpong"), (260, "frag")].iter().enumerate() {
+        if ctx.mine(60_000 + k as u64) {
+            let reqs: Vec<String> = (0..*count).map(|j| format!("GET:/r{j}:n::n200")).collect();
+            case(ctx, "c04", "100", "1", sched, &reqs.join(";"));
+        }
+    }
 }
 
 /// C04: sequences of 1..12 requests x behaviours x schedules.
@@ -665,7 +700,20 @@ pub fn run_c01n(ctx: &mut Ctx) {
         let a = one(&[b"GET /a HTTP/1.1\r\n\r\n"], true);
         let b2 = one(&[b"GET /b HTT", b"P/1.1\r\nx: y\r\n\r\n"], false);
         let c3 = one(&[b"GET /c HTTP/1.1\r\n\r\n", b"GET /d HTTP/1.1\r\n\r\n"], false);
-        format!("late={a} split={b2} keepalive={c3}")
+        // 130 requests, one at a time, on one connection
+        let long = {
+            let mut c = TcpStream::connect(addr).unwrap();
+            let _ = c.set_read_timeout(Some(Duration::from_secs(4)));
+            let mut n = 0;
+            for i in 0..130 {
+                if c.write_all(format!("GET /l{i} HTTP/1.1\r\n\r\n").as_bytes()).is_err() { break; }
+                let mut acc = Vec::new();
+                if !read_one_response(&mut c, &mut acc) || !acc.starts_with(b"HTTP/1.1 200") { break; }
+                n += 1;
+            }
+            n
+        };
+        format!("late={a} split={b2} keepalive={c3} long={long}")
     });
     ctx.emit("c01n", &["-"], &obs);
 }
@@ -798,6 +846,15 @@ pub fn run_c09(ctx: &mut Ctx) {
             }
         }
     }
+    // methods other than POST/PUT with a declared body: the same boundaries (a declared length frames a body whatever the method)
+    for method in ["GET", "HEAD", "TRACE", "DELETE", "OPTIONS", "M"] {
+        for (l, m) in [(50u64, 100u64), (100, 100), (101, 101), (101, 100), (3000, 1_000_000), (3000, 10)] {
+            idx += 1;
+            if !ctx.mine(idx) { continue; }
+            let body = enc(&(0..l as usize).map(|i| b'a' + (i % 23) as u8).collect::<Vec<u8>>());
+            case(ctx, "c09", "100", "1", "single", &format!("{method}:/r0:k:{body}:g{m};GET:/r1:n::n200"));
+        }
+    }
     // declared lengths written with leading zeros (Content-Length = 1*DIGIT), also wider than the 20 digits of u64::MAX:
     // the same boundaries apply to the value, not to its spelling
     for (l, width) in [(0u64, 21usize), (3, 21), (100, 24), (101, 21), (101, 40), (5000, 22), (5000, 3), (7, 20), (7, 19)] {
@@ -839,6 +896,18 @@ pub fn run_c10(ctx: &mut Ctx) {
             if !ctx.mine(idx) { continue; }
             let body = enc(&vec![b'p'; sent]);
             case(ctx, "c10", "100", "1", "linger", &format!("POST:/r0:d{declared}:{body}:{code}"));
+        }
+    }
+    // an upload whose handler reports 10 / 50 / 51 / 80 events before it returns (the event queue holds 50), and one whose
+    // handler keeps a clone of the request beyond its return: answered, file gone
+    for (k, beh) in ["S10", "S50", "S51", "S80", "Q"].iter().enumerate() {
+        for sched in ["single", "linger"] {
+            idx += 1;
+            if !ctx.mine(idx) { continue; }
+            let _ = k;
+            let follow = if beh.starts_with('S') || sched == "linger" { "" } else { ";GET:/r1:n::n200" };
+            if beh.starts_with('S') && sched == "linger" { continue; }
+            case(ctx, "c10", "100", "1", sched, &format!("POST:/up{idx}:k:{}:{beh}{follow}", enc(&vec![b'q'; 400])));
         }
     }
     // a handler that takes 11 s over a received upload: the response is the handler's own, and the file is gone once it is sent
